@@ -199,8 +199,23 @@ Record input := {
   arg : args;
   ra : option string;          (* registration authority of the requester in the IdP's metadata *)
   stored : list nid;           (* identifiers the store holds for this user, oldest first *)
-  now : Z                      (* virtual clock *)
+  now : Z;                     (* virtual clock: seconds since the epoch *)
+  zone : Z                     (* time zone of the issuing process: its wall clock is `zone` seconds ahead of UTC at `now` *)
 }.
+
+(* ---------------------------------------------------------------- clock readings *)
+(* What the code can ask the clock: time.gmtime() / time.time() / datetime.utcnow() / datetime.now(timezone.utc)
+   answer UTC; time.localtime() / datetime.now() / datetime.today() answer the wall clock of the process time
+   zone.  Both are printed the same way (strftime with a literal "Z"), so a wall reading ends up in the message as
+   if it were UTC.  time_util.instant() reads gmtime(), time_util.in_a_while() reads utcnow(): the code as it is
+   takes UTC readings only. *)
+Inductive reading := UtcReading | WallReading.
+
+Definition read (k : reading) (x : input) : Z :=
+  match k with UtcReading => now x | WallReading => (now x + zone x)%Z end.
+
+Definition in_zone (z : Z) (x : input) : input :=
+  {| cfg := cfg x; arg := arg x; ra := ra x; stored := stored x; now := now x; zone := z |}.
 
 (* ---------------------------------------------------------------- outputs *)
 Record issued := {
@@ -347,14 +362,17 @@ Definition signatures (x : input) : option (option (string * string) * option (s
   else Some (None, sa).
 
 (* ---------------------------------------------------------------- create_authn_response *)
-Definition create_with (kwa : option (option string)) (nformat : string) (x : input) : outcome :=
+(* issue_clock: the reading behind IssueInstant / NotBefore (time_util.instant); expiry_clock: the reading behind
+   the two NotOnOrAfter (Policy.not_on_or_after -> time_util.in_a_while) *)
+Definition create_clocked (issue_clock expiry_clock : reading) (kwa : option (option string)) (nformat : string)
+    (x : input) : outcome :=
   match choose_name_id_with kwa nformat x with
   | None => Error ENameId
   | Some (name_id, src) =>
       let a := arg x in
       let pol := the_policy x in
       let fa := update_farg (a_in_response_to a) (a_destination a) (a_farg a) in
-      let nooa := not_on_or_after (now x) pol (a_sp a) (ra x) in
+      let nooa := not_on_or_after (read expiry_clock x) pol (a_sp a) (ra x) in
       match signatures x with
       | None => Error EAlg
       | Some (sr, sa) =>
@@ -362,13 +380,13 @@ Definition create_with (kwa : option (option string)) (nformat : string) (x : in
             r_issuer := issuer_of x;
             r_in_response_to := a_in_response_to a;
             r_destination := if is_empty (a_destination a) then None else Some (a_destination a);
-            r_issue_instant := now x;
+            r_issue_instant := read issue_clock x;
             i_issuer := issuer_of x;
             i_audiences := [[a_sp a]];
             i_method := f_method fa;
             i_recipient := f_recipient fa;
             i_irt := f_irt fa;
-            i_not_before := now x;
+            i_not_before := read issue_clock x;
             i_nooa_cond := nooa;
             i_nooa_sc := nooa;
             i_nameid := name_id;
@@ -380,7 +398,17 @@ Definition create_with (kwa : option (option string)) (nformat : string) (x : in
       end
   end.
 
+(* the code as it is: both readings are UTC readings *)
+Definition create_with (kwa : option (option string)) (nformat : string) (x : input) : outcome :=
+  create_clocked UtcReading UtcReading kwa nformat x.
+
 Definition create (x : input) : outcome := create_with (kwa_format x) (nim_format x) x.
+
+(* variants that take a wall-clock reading somewhere (NOT what the code does; kept for c09_wall_clock_refuted and
+   for the diagnosis in Corr.explain): e.g. utcnow() replaced by now() in time_util.time_in_a_while is
+   create_read UtcReading WallReading *)
+Definition create_read (issue_clock expiry_clock : reading) (x : input) : outcome :=
+  create_clocked issue_clock expiry_clock (kwa_format x) (nim_format x) x.
 
 (* the behaviour before d41562bb (and before 9a92c673) *)
 Definition create_v0 (x : input) : outcome := create_with (kwa_format_v0 x) (nim_format_v0 x) x.
@@ -403,8 +431,15 @@ Record spside := {
   sp_atd : option Z;                           (* accepted_time_diff *)
   sp_allow_unsolicited : bool;
   sp_outstanding : list (string * string);     (* request id -> stored context *)
-  sp_now : Z                                   (* its clock *)
+  sp_now : Z;                                  (* its clock *)
+  sp_zone : Z                                  (* time zone of the receiving process, seconds ahead of UTC at sp_now;
+                                                  no acceptance model reads it: all comparisons are made in UTC *)
 }.
+
+Definition sp_in_zone (z : Z) (s : spside) : spside :=
+  {| sp_me := sp_me s; sp_idp := sp_idp s; sp_specs := sp_specs s; sp_binding := sp_binding s; sp_wr := sp_wr s;
+     sp_wa := sp_wa s; sp_wor := sp_wor s; sp_atd := sp_atd s; sp_allow_unsolicited := sp_allow_unsolicited s;
+     sp_outstanding := sp_outstanding s; sp_now := sp_now s; sp_zone := z |}.
 
 Definition sigst_of (s : option (string * string)) : C01.Model.sigst :=
   match s with Some _ => C01.Model.Valid | None => C01.Model.Absent end.
